@@ -2,7 +2,7 @@
 # tools/seedtest.sh <seed-dir> <patch-file> <demo-file> <melvm|root> <checks...>
 # Confirms a seeded change in the scratch lab: demo passes on the clean tree, patch applies, repo suite stays at baseline,
 # demo fails with the patch; then runs the given quick checks against the patched tree and restores the lab.
-LAB=/tmp/mutlab
+LAB="${MUTLAB:-/tmp/mutlab}"
 dir="$1"; patch="$2"; demo="$3"; where="$4"; shift 4
 tdir="$LAB/repo/tests"; pkg=""
 [ "$where" = "melvm" ] && { tdir="$LAB/repo/lib/melvm/tests"; pkg="-p melvm"; }
